@@ -203,6 +203,10 @@ impl<T: Elem> Case for RegCase<T> {
         }
         h
     }
+    fn calls(&self) -> u64 {
+        let per = if self.op.base == Base::LoadWrite { 2 } else { 1 };
+        self.batches() as u64 * per
+    }
     fn shrink(&self) -> Vec<Self> {
         let mut out = Vec::new();
         let u = self.unit();
